@@ -271,7 +271,7 @@ def run(check, repo: Repo) -> None:
                     raise AnalysisError(f"C03-R4: cannot classify `{unparse(base)}` mutated in Dataset.{mname}")
                 check.decide(not shared, "C03-R4",
                              f"Dataset.{mname}: `{unparse(st)[:50]}` does not write into the source's storage",
-                             "fresh" if not shared else f"may alias {sorted(shared)}", mod.line(st),
+                             "fresh" if not shared else f"may alias {sorted(shared)}", mod.line(st), definite=bool(shared),
                              fail_detail=f"`{unparse(base)}` may share storage with self.{sorted(shared)} and is modified on a "
                                          f"path where modify_in_place is not set: the source dataset is changed by an "
                                          f"operation that returns a new dataset")
@@ -298,7 +298,7 @@ def run(check, repo: Repo) -> None:
                     n_res += 1
                     shared = al.roots(st.value) & {"_array"}
                     check.decide(not shared, "C03-R4", f"Dataset.{mname}: the array given to the returned dataset `{t.value.id}` does not share storage with the source", unparse(st.value)[:60],
-                                 mod.line(st), fail_detail=f"`{unparse(st)[:70]}` installs a view of self's array in the new dataset: a later write into the result (or into the source) "
+                                 mod.line(st), definite=bool(shared), fail_detail=f"`{unparse(st)[:70]}` installs a view of self's array in the new dataset: a later write into the result (or into the source) "
                                                            f"changes the other — the source is not left bit-identical")
     check.floor("arrays installed in returned datasets", n_res, 3)
     # copy(): every field handed to the new dataset is fresh
@@ -310,6 +310,10 @@ def run(check, repo: Repo) -> None:
     for k in fa_calls[0].keywords:
         if k.arg in ("array", "origin", "sampling", "units"):
             roots = alc.roots(k.value) & STATE
+            if k.arg in ("origin", "sampling", "units"):
+                # from_array hands these to the property setters, which store np.array(v).flatten() / [str(u) for u in v] (C03-R1): fresh objects whatever is passed
+                check.holds("C03-R4", f"Dataset.copy: `{k.arg}` of the copy is fresh storage", "re-copied by the validating setter", mod.line(k.value))
+                continue
             check.decide(not roots, "C03-R4", f"Dataset.copy: `{k.arg}` of the copy is fresh storage", unparse(k.value), mod.line(k.value),
                          fail_detail=f"copy() passes `{unparse(k.value)}` for {k.arg}, which may alias self.{sorted(roots)}")
 
@@ -356,7 +360,8 @@ def run(check, repo: Repo) -> None:
         # after a store into one of self's fields, what that field determines must not be read again: in the in-place variant the
         # read yields the new value, in the copying variant (where the store went to the copy) the old one — the arms disagree.
         # Field-sensitive def-use over the CFG, independent of how the function is laid out → a definite verdict.
-        DEP = {"array": {"array", "_array", "shape", "ndim", "dtype"}, "sampling": {"sampling", "_sampling"},
+        # (ndim is invariant under pad / crop / bin / fourier_resample: reading it after the store is harmless and not claimed)
+        DEP = {"array": {"array", "_array", "shape", "dtype"}, "sampling": {"sampling", "_sampling"},
                "origin": {"origin", "_origin"}, "units": {"units", "_units"}}
         bad = []
         n_stores = 0
